@@ -9,6 +9,19 @@ from typing import Any, Callable, Final, Iterator, Union, Tuple
 _MISSING: Final[object] = object()
 
 
+def owns_attr(target: Any, attr: str) -> bool:
+    """Whether `attr` lives on `target` itself rather than being inherited.
+
+    Restoring an inherited attribute with `setattr` would pin a copy on the
+    subclass (possibly a base-class shim captured while that base was patched);
+    such attributes have to be restored by deleting the override instead.
+    """
+    try:
+        return attr in vars(target)
+    except TypeError:  # no __dict__ (slots / builtins): only setattr can restore
+        return True
+
+
 def _resolve(target: Union[str, Any]) -> Any:
     if not isinstance(target, str):
         return target
@@ -39,22 +52,25 @@ PatchSpec = Union[AssignSpec, MonkeyPatchSpec]
 
 @contextmanager
 def apply_patches(specs: list[PatchSpec]) -> Iterator[None]:
-    applied: list[Tuple[Any, str, Any]] = []
+    applied: list[Tuple[Any, str, Any, bool]] = []
     try:
         for s in specs:
             tgt = _resolve(s.target)
             orig = getattr(tgt, s.attr, _MISSING)
+            owned = orig is not _MISSING and owns_attr(tgt, s.attr)
             if isinstance(s, AssignSpec):
                 setattr(tgt, s.attr, s.value)
             else:  # MonkeyPatchSpec
                 new_val = s.make_value(None if orig is _MISSING else orig)
                 setattr(tgt, s.attr, new_val)
-            applied.append((tgt, s.attr, orig))
+            applied.append((tgt, s.attr, orig, owned))
         yield
     finally:
         # unwind in reverse order
-        for tgt, attr, orig in reversed(applied):
-            if orig is _MISSING:
+        for tgt, attr, orig, owned in reversed(applied):
+            if orig is _MISSING or not owned:
+                # absent before, or inherited: drop our override so lookup falls
+                # back to what it resolved to before the patch
                 try:
                     delattr(tgt, attr)
                 except Exception:
